@@ -104,8 +104,12 @@ class CSSCharsetRule(cssrule.CSSRule):
 
         encodingtoken = self._nexttoken(tokenizer)
         encodingtype = self._type(encodingtoken)
-        encoding = self._stringtokenvalue(encodingtoken)
-        if self._prods.STRING != encodingtype or not encoding:
+        # only a STRING token has quotes to strip (the EOF token of
+        # '@charset ' has an empty value)
+        encoding = None
+        if self._prods.STRING == encodingtype:
+            encoding = self._stringtokenvalue(encodingtoken)
+        if not encoding:
             wellformed = False
             self._log.error('CSSCharsetRule: no encoding found; %r.' %
                             self._valuestr(cssText))
